@@ -24,14 +24,14 @@
 enum { K_PUSH, K_PUSH_TEXT, K_POP_API, K_POP_SYST, K_POP_EMPTY, K_CLEAR, K_OVERFLOW, K_OVERFLOW_TEXT, K_OVERFLOW_POPPED,
        K_INTACT_API, K_INTACT_SYST, K_DROPPED, K_DROPPED_TOO_BIG, K_NOTEXT_OK, K_TWO_PARTS, K_REUSE_ANY, K_REUSE_FULL, K_REUSE_FULL_INTACT,
        K_EMPTY_TEXT, K_AUTOCUT_255, K_AUTOCUT_FULL, K_SYST_LIMITED, K_MODE_EXPL, K_MODE_AUTO, K_MODE_NULSHORT,
-       K_HIST, K_WRAP, K_GUARD_CHECKS, K_CLEAR_TEXT, K_CLIENT_KEEPS, K_ADJACENT, K__N };
+       K_HIST, K_WRAP, K_GUARD_CHECKS, K_CLEAR_TEXT, K_CLIENT_KEEPS, K_ADJACENT, K_QUOTED_TEXT, K__N };
 static const char * const kname[K__N] = { "op.push", "op.push_text", "op.errorpop", "op.syst_err", "op.pop_on_empty", "op.clear",
     "overflow.events", "overflow.dropped_text", "overflow.marker_popped",
     "text.returned_intact_errorpop", "text.returned_intact_syst_err", "text.dropped", "text.dropped_larger_than_heap", "text.absent_as_expected", "text.returned_in_two_parts",
     "reuse.text_pushed_on_empty_queue", "reuse.full_heap_text_pushed", "reuse.full_heap_text_intact",
     "text.empty_pushed", "text.auto_length_cut_255", "text.auto_length_full", "syst_err.over_255_prefix_only",
     "push.explicit_len", "push.automatic_len", "push.explicit_len_beyond_nul",
-    "history.runs", "history.ring_wraparound", "heap.guard_checks", "clear.dropped_text", "errorpop.text_kept_by_the_application_for_good", "push.text_buffer_adjacent_to_the_heap" };
+    "history.runs", "history.ring_wraparound", "heap.guard_checks", "clear.dropped_text", "errorpop.text_kept_by_the_application_for_good", "push.text_buffer_adjacent_to_the_heap", "syst_err.text_with_double_quotes_reported" };
 static uint64_t kval[K__N];
 static uint64_t evals_local;
 #define CNT(k) (kval[k]++)
@@ -46,7 +46,9 @@ static void flush_counts(void) {
 static char runs[52][RUN_MAX];
 static void runs_init(void) {
     int l, i;
-    for (l = 0; l < 52; l++) for (i = 0; i < RUN_MAX; i++) runs[l][i] = (i % 4 == 3) ? (char) ('0' + (i / 4) % 10) : (char) (l < 26 ? 'A' + l : 'a' + l - 26);
+    /* every second letter's texts carry a double quote at each position 1 mod 4: stored as it is, doubled in the response, and it lands on every
+     * heap offset - the last byte before the wrap-around included - as the histories rotate the write position */
+    for (l = 0; l < 52; l++) for (i = 0; i < RUN_MAX; i++) runs[l][i] = (i % 4 == 3) ? (char) ('0' + (i / 4) % 10) : ((l & 1) && i % 4 == 1) ? '"' : (char) (l < 26 ? 'A' + l : 'a' + l - 26);
 }
 
 enum { OP_PUSH, OP_PUSHT, OP_POP_API, OP_POP_SYST, OP_CLEAR, OP__N };
@@ -237,7 +239,10 @@ static void do_pop_syst(hist_t * h, const op_t * o) {
     else if (tbuf[dl] != ';') fail(h, "C20:systerr-description", "SYST:ERR? answered \"%s\" for code %d: no ';' after the description", vh_esc(tbuf, dlen < 60 ? dlen : 60), (int) m.code);
     else {
         size_t want = (m.flags & F_AUTOCUT) ? 255 : m.len;
-        int limited = m.has_text && dl + 1 + want > 255; /* the texts contain no quotes */
+        size_t nq = 0, qi; int limited;
+        for (qi = 0; qi < want && m.has_text; qi++) if (m.text[qi] == '"') nq++; /* a quote costs two characters of the 255 */
+        if (nq) CNT(K_QUOTED_TEXT);
+        limited = m.has_text && dl + 1 + want + nq > 255;
         judge_text(h, &m, tbuf + dl + 1, dlen - dl - 1, "SYST:ERR?", limited, K_INTACT_SYST);
     }
 }
